@@ -463,11 +463,22 @@ def check_divide(ctx, rep, rules=('S-divide', 'I-private-bump')):
         swap = None
         for (v, c) in p.conds:
             x = strip_upd(v)
+            rel, a_, b_ = None, None, None
             if x[0] in ('op',) and x[1] in ('gt', 'lt') and len(x) == 4:
-                na, nb = obj_root(x[2], alias, p.final.mem), obj_root(x[3], alias, p.final.mem)
+                rel, a_, b_ = x[1], x[2], x[3]
+            elif x[0] == 'op' and x[1] in ('eq', 'ne') and len(x) == 4:
+                # `a.cmp(b) == Greater` is `a > b` (events never compare Equal: O-noequal)
+                for call, const in ((strip_upd(x[2]), strip_upd(x[3])), (strip_upd(x[3]), strip_upd(x[2]))):
+                    if call[0] in ('call', 'pcall') and call[1].endswith('as std::cmp::Ord>::cmp') and len(call[2]) == 2:
+                        o = const[2] if const[0] == 'agg' else (const[1][2] if const[0] == 'c' and isinstance(const[1], tuple) else None)
+                        if o in ('Greater', 'Less'):
+                            rel = 'gt' if (o == 'Greater') == (x[1] == 'eq') else 'lt'
+                            a_, b_ = call[2]
+            if rel:
+                na, nb = obj_root(a_, alias, p.final.mem), obj_root(b_, alias, p.final.mem)
                 if {na, nb} == {'l', 'se_r'}:
                     # is_before(l, se_r) is `l > se_r`
-                    before = c[1] if (x[1] == 'gt' and na == 'l') or (x[1] == 'lt' and na == 'se_r') else (not c[1])
+                    before = c[1] if (rel == 'gt' and na == 'l') or (rel == 'lt' and na == 'se_r') else (not c[1])
                     swap = not before
         key = 'bump=%d,swap=%s' % (bumped, {None: '?', True: 1, False: 0}[swap])
         byname = dict(zip(names, evs))
